@@ -24,10 +24,10 @@ type Env struct {
 	bound       map[string]bool
 	callee      *ssa.Function // when evaluating a callee's contract at a call site
 	pkg         *types.Package
-	noProgram   bool // callee env: program variables of the caller are not visible
+	noProgram   bool   // callee env: program variables of the caller are not visible
 	callArgs    []*Val // at call "...": the arguments of the matched call, arg(i)
-	entryOnly   bool // inside old(): only parameters, globals and ghost state are visible
-	bodyLocals  bool // names may denote values defined inside the loop body (step / exits / at clauses)
+	entryOnly   bool   // inside old(): only parameters, globals and ghost state are visible
+	bodyLocals  bool   // names may denote values defined inside the loop body (step / exits / at clauses)
 }
 
 func (e *Env) phiByValue(p *ssa.Phi, v *Val) {
@@ -286,6 +286,11 @@ func (vc *FnVC) resolveLocal(e *Env, name string) (*Val, error) {
 				cur := vc.curBlock
 				if cur != nil && !(def.Dominates(cur) || def == cur) {
 					continue
+				}
+				if e.loop != nil && !e.loop.blocks[def] {
+					if _, isLoopVar := e.loop.phiVals[name]; isLoopVar {
+						continue // the initialisation before the loop is not the value inside it: header phi
+					}
 				}
 				if best == nil || best.addr || (best.block.Dominates(b.block) && (best.block != b.block || b.idx > best.idx)) {
 					best = b
